@@ -57,4 +57,13 @@ inductive Res where
   | ok | reject
   deriving DecidableEq, Repr, Inhabited
 
+/-- how a wrapped computation (the function under `use_mc_sample_size`) ends: it returns, or it
+    raises an instance of the class called `cls`; `isExc` = `issubclass(cls, Exception)` — False
+    for `KeyboardInterrupt`, `SystemExit`, `GeneratorExit` and every class derived directly from
+    `BaseException`, which an `except Exception:` clause does not see -/
+inductive Outcome where
+  | returned
+  | raised (cls : String) (isExc : Bool)
+  deriving DecidableEq, Repr, Inhabited
+
 end QExPy.Settings
